@@ -73,6 +73,9 @@ def strategy(tier):
       # requests (by index) whose deadline passes after they were sent, and how many of the last requests are only issued then
       'timeouts': st.one_of(st.just([]), st.just([]), st.lists(st.integers(0, 3), min_size=1, max_size=2, unique=True)),
       'after_timeouts': st.integers(1, 2),
+      # the socket takes one request only in two pieces (the peer's window fills after `cut` bytes for a few ms)
+      'stall': st.one_of(st.none(), st.none(), st.fixed_dictionaries({'send_index': st.integers(0, 3), 'cut': st.sampled_from([1, 9, 30, 64]),
+                                                                        'for_ms': st.sampled_from([1, 4, 8])})),
       'client_id': st.sampled_from([None, None, '', '78', '7363616c657321', 'c3a9e282ac', '61' * 40]),
       'chunks': st.one_of(st.none(), st.just('bytes'), st.lists(st.integers(1, 9), min_size=1, max_size=5),
                           st.lists(st.sampled_from([1, 3, 4, 5, 64, 1000]), min_size=1, max_size=4)),
@@ -108,6 +111,13 @@ def execute(plan):
         nt_reads['i'] += 1
         return 1 if ch == 'bytes' else ch[nt_reads['i'] % len(ch)]
       net.chunker = chunker
+    stl = plan.get('stall')
+    if stl:
+      def stall_fn(sock, data, idx):
+        if idx == stl['send_index'] and len(data) > stl['cut'] + 1:
+          return (stl['cut'], stl['for_ms'] / 1000.0)
+        return None
+      net.stall = stall_fn
     want_client_id = b'scales'
     if plan.get('client_id') is not None:
       want_client_id = bytes.fromhex(plan['client_id'])
@@ -162,13 +172,18 @@ def execute(plan):
         msg.properties[Deadline.KEY] = loop.now() + 5.0
         events[i] = msg.properties[Deadline.EVENT_KEY] = Observable()
         stacks[i] = st_
-      try:
-        sink.AsyncProcessRequest(st_, msg, None, {})
-      except Exception as e:
-        raise Violation(ID, 'request-not-framed', 'produce request %d could not be framed: %r' % (i, e))
+      if stl:
+        # every caller has its own greenlet: one may be part-way through a blocked write when the next one comes
+        import gevent
+        gevent.spawn(sink.AsyncProcessRequest, st_, msg, None, {})
+      else:
+        try:
+          sink.AsyncProcessRequest(st_, msg, None, {})
+        except Exception as e:
+          raise Violation(ID, 'request-not-framed', 'produce request %d could not be framed: %r' % (i, e))
       if len(payloads) >= 2 and any(len(p) == 0 or len(p) > 65535 for p in payloads):
         nt.add('>=2 payloads with one empty or >64kB')
-    advance(0.01)
+    advance(0.01 + (stl['for_ms'] / 1000.0 if stl else 0))
     if peer.bad or peer.leftover():
       raise Violation(ID, 'bad-framing', 'size prefix does not match the bytes sent: %r %r' % (peer.bad, dict((k, len(v)) for k, v in peer.leftover().items())))
     if len(peer.requests) != len(reqs):
